@@ -192,7 +192,8 @@ def judge(c, r, fam):
     if c['expect'] == 'infeasible':
         # the converter need not prove infeasibility (the solver would); what it reports must be one of the documented classes
         cls = 'infeasible-reported' if 200 <= code < 300 else 'failure-reported' if code >= 500 else 'passed-on-to-solver'
-    if c.get('has_feasible_point') and 200 <= code < 300:
+    approx = 'approximated' in sol['message']      # an announced piecewise-linear approximation may legitimately lose a feasible point
+    if c.get('has_feasible_point') and 200 <= code < 300 and not approx:
         res.append(('feasible-model-reported-infeasible', 'code %d message %r; feasible point %s' % (code, sol['message'][:160], c['has_feasible_point'])))
     if c['expect'] == 'failure' and not (500 <= code < 1000):
         res.append(('unsupported-construct-not-reported-as-failure:%s' % c['sub'], 'code %d message %r' % (code, sol['message'][:160])))
@@ -200,7 +201,7 @@ def judge(c, r, fam):
         res.append(('failure-reported-with-solved-class-code', 'code %d message %r' % (code, sol['message'][:160])))
     if re.search(r'Model infeasible', sol['message']) and not (200 <= code < 300):
         res.append(('proven-infeasibility-reported-with-wrong-class-code', 'code %d message %r' % (code, sol['message'][:200])))
-    if c.get('has_feasible_point') and re.search(r'Model infeasible', sol['message']):
+    if c.get('has_feasible_point') and re.search(r'Model infeasible', sol['message']) and not approx:
         res.append(('feasible-model-reported-infeasible', 'code %d message %r; feasible point %s' % (code, sol['message'][:160], c['has_feasible_point'])))
     if re.search(r'unsupported:|not implemented', sol['message']) and not (500 <= code < 1000):
         res.append(('failure-reported-with-solved-class-code', 'code %d message %r' % (code, sol['message'][:160])))
